@@ -33,14 +33,15 @@ import (
 )
 
 type runExp struct {
-	Plan  interp.Plan `json:"plan"`
-	Res   string      `json:"res"`
-	Sink  []string    `json:"sink"`
-	Fired bool        `json:"fired"`
-	UF    []int       `json:"uf"`
-	Pev   []string    `json:"pev"`
-	Evals int         `json:"evals"`
-	Leafs int         `json:"leafs"`
+	Plan   interp.Plan `json:"plan"`
+	Res    string      `json:"res"`
+	Sink   []string    `json:"sink"`
+	Fired  bool        `json:"fired"`
+	SFired bool        `json:"sfired"`
+	UF     []int       `json:"uf"`
+	Pev    []string    `json:"pev"`
+	Evals  int         `json:"evals"`
+	Leafs  int         `json:"leafs"`
 }
 
 type caseT struct {
@@ -82,6 +83,8 @@ func progString(p []interp.Op) string {
 			sb.WriteString("slot")
 		case "call", "flush":
 			fmt.Fprintf(&sb, "%s(%s)", o.K, progString(o.A))
+		case "hcb":
+			fmt.Fprintf(&sb, "%s{%s}", []string{"passthrough", "collector"}[o.N], progString(o.A))
 		default:
 			fmt.Fprintf(&sb, "%s(%s | %s)", o.K, progString(o.A), progString(o.B))
 		}
@@ -103,6 +106,9 @@ func planString(p interp.Plan) string {
 		s += "; context cancelled before Render"
 	case "cancelat":
 		s += fmt.Sprintf("; context cancelled by expression evaluation #%d", p.L.J)
+	}
+	if p.S.M != "" && p.S.M != "none" {
+		s += fmt.Sprintf("; the collecting component's own writer fails at byte %d", p.S.K)
 	}
 	return s
 }
@@ -132,6 +138,7 @@ type outcome struct {
 func render(comp templ.Component, rs *interp.RenderState, plan interp.Plan, sw bool) outcome {
 	ctx, cancel := context.WithCancel(context.Background())
 	defer cancel()
+	rs.SW = sw
 	rs.Reset(plan, cancel)
 	if plan.L.K == "cancel" {
 		cancel()
@@ -235,7 +242,7 @@ func check(c *caseT, doc string, modelOK bool, seq []string, idx int, exp runExp
 		stats["fails"]++
 		reportFail(sig, what, rep)
 	}
-	lfired := exp.Plan.L.K == "cancel" || o.rs.ExprErr || o.rs.LeafErr
+	lfired := exp.Plan.L.K == "cancel" || o.rs.ExprErr || o.rs.LeafErr || o.rs.SideFired
 	anyFault := o.fired || lfired
 	carry := ""
 	if afterFailure {
@@ -283,6 +290,8 @@ func check(c *caseT, doc string, modelOK bool, seq []string, idx int, exp runExp
 			ok = o.rs.ExprErr
 		case "comp":
 			ok = o.rs.LeafErr
+		case "sinj":
+			ok = o.rs.SideFired
 		case "ctx":
 			ok = exp.Plan.L.K == "cancel" || o.rs.CancelFired
 		}
@@ -310,6 +319,24 @@ func check(c *caseT, doc string, modelOK bool, seq []string, idx int, exp runExp
 		fail("FailStop.EvalAfterError", "an expression was evaluated after an error had been returned to the generated code",
 			fmt.Sprintf("evaluations: real %d, specification %d", o.rs.Evals, exp.Evals))
 	}
+	// OneOwnerFlushes, independent of the model: whoever acquired a pooled buffer flushed and released it before
+	// Render returned (otherwise what it buffered never reaches its writer and that writer's failure is never seen)
+	acq, rel, fl := 0, 0, 0
+	for _, e := range o.events {
+		switch e.Ev {
+		case "acquire":
+			acq++
+		case "release":
+			rel++
+		case "flush":
+			fl++
+		}
+	}
+	if !violated && (acq != rel || acq != fl) {
+		violated = true
+		fail("OneOwnerFlushes.AcquiredNotReleased", "a pooled buffer acquired during the render was not flushed and released before Render returned",
+			fmt.Sprintf("pool events %v", poolEvents(o.events)))
+	}
 	if violated {
 		return
 	}
@@ -324,7 +351,7 @@ func check(c *caseT, doc string, modelOK bool, seq []string, idx int, exp runExp
 	if o.class != exp.Res {
 		d = append(d, "error class")
 	}
-	if o.fired != exp.Fired {
+	if o.fired != exp.Fired || o.rs.SideFired != exp.SFired {
 		d = append(d, "writer-failed flag")
 	}
 	if o.rs.Evals != exp.Evals || o.rs.Leafs != exp.Leafs {
@@ -356,6 +383,8 @@ func faultKind(p interp.Plan, o outcome) string {
 		return "Expr"
 	case o.rs.LeafErr:
 		return "NestedComponent"
+	case o.rs.SideFired:
+		return "CollectorWriter"
 	case p.L.K == "cancel":
 		return "Cancelled"
 	case o.fired:
@@ -464,6 +493,7 @@ func cases(args []string) {
 		}
 		none := interp.Plan{}
 		none.W.K, none.W.M, none.L.K = -1, "none", "none"
+		none.S.K, none.S.M = -1, "none"
 		for i, c := range g {
 			ncases++
 			keep := rng.Float64() < frac
@@ -495,6 +525,9 @@ func cases(args []string) {
 					failedBefore = true
 				}
 				kinds[e.Plan.W.M+"/"+e.Plan.L.K]++
+				if e.Plan.S.M == "err" {
+					kinds["collector-writer/err"]++
+				}
 				if keep {
 					writeTrace(o.events)
 				}
